@@ -80,7 +80,7 @@ class Gen:
         if x < 0.8:
             i = r.randrange(len(fs))
             f = fs[i]
-            if not f["enums"] and f["w"] > 1 and r.random() < 0.12 and self.sall is None:
+            if not f["enums"] and f["w"] > 1 and r.random() < 0.12 and not self.sall:
                 hi = r.randrange(f["w"])
                 if r.random() < 0.4:
                     return {"k": "psel", "e": F(i), "hi": hi, "lo": hi, "bit": True}
@@ -185,6 +185,14 @@ class Gen:
             i = r.choice(en)
             m = r.randrange(len(fs[i]["enums"]))
             return B(r.choice(CMP), F(i), {"k": "enumlit", "enums": fs[i]["enums"], "m": m, "v": fs[i]["enums"][m]})
+        us = [i for i, f in enumerate(fs) if not f["s"] and not f["enums"] and f["w"] > 1]
+        if us and not self.sall and r.random() < 0.12:
+            # a part-select anchored at bit 0 or at the msb against a small constant: it constrains some bits of the field,
+            # never the field as a whole
+            i = r.choice(us)
+            w = fs[i]["w"]
+            hi, lo = (w - 1, r.randint(1, w - 1)) if r.random() < 0.5 else (r.randint(0, w - 2), 0)
+            return B(r.choice(CMP), {"k": "psel", "e": F(i), "hi": hi, "lo": lo}, I(r.randint(0, 5)))
         return B(r.choice(CMP), self.fieldy(fs, d), self.arith(fs, d, False))
 
     # statements --------------------------------------------------------------
